@@ -11,7 +11,7 @@ P = {
  'C01': ('E1', 'CrossHair symbolic execution of cook+render: symbolic raw sources and symbolic code points in literal slots / after bogus openers / at composition seams vs. character-level oracle', '4 C01, 7.3'),
  'C02': ('E1', 'CrossHair symbolic execution of the real namespace stack and call protocol (symbolic definedness bits, stack contents, client shapes)', '4 C02'),
  'C03': ('E1', 'CrossHair symbolic execution of the real render path on a symbolic value string vs. independent escaping oracle; pools for non-string values', '4 C03'),
- 'C04': ('E1', 'CrossHair: inductive taint invariant per pipeline stage (stage order read from the live modifiers list) + whole-render glue on symbolic tainted strings; pool for %-format templates', '4 C04, 7.6'),
+ 'C04': ('E1', 'CrossHair: inductive taint invariant per pipeline stage (stage order read from the live modifiers list) + whole-render glue on symbolic tainted strings; selector-enumerated pools (untraced renders) for %-format templates, every str method as fmt=, fmt x C-conversion x modifier combinations', '4 C04, 7.6, 7.8'),
  'C05': ('E1', 'CrossHair two-run non-interference (self-composition) over symbolic secrets and guard decisions per access channel; explicit-oracle skip_unauthorized subsets', '4 C05, 7.3, 7.5'),
  'C06': ('E1+E4', 'CrossHair on cook() with symbolic source text / spliced code points / selector-enumerated token sequences and attribute lists vs. reference grammar recogniser with located-error check + z3 search for exponential regex ambiguity on the live patterns', '4 C06, 7.3'),
  'C07': ('E1', 'CrossHair: three printers of one abstract template (selector-enumerated, untraced) with structural normalisation of the compiled programs; pre-compiled variants rendered on symbolic namespace values', '4 C07, 7.3'),
@@ -25,7 +25,7 @@ P = {
  'C15': ('E1', 'CrossHair over symbolic values/sizes vs. pipeline oracle (pairs of modifiers in both orders, truncation for every string); selector pools for url/case/thousands laws', '4 C15, 7.3'),
  'C16': ('E2+E1', 'AST->SMT of statistics over Real/Int (z3) and IEEE Float64 (cvc5 binary, z3 cross-check) + CrossHair on real renders of mixed items', '4 C16, 7.3'),
  'C17': ('E1', 'CrossHair-enumerated operation histories (render/pickle/copy/munge/cook, untraced bodies) vs. freshly built templates; file-based templates', '4 C17, 7.3'),
- 'C18': ('E3', 'SMT schedule synthesis (z3) over recorded shared-memory traces with read-consistency constraints, replayed on real threads', '4 C18, 7.3'),
+ 'C18': ('E3', 'SMT schedule synthesis (z3) over recorded shared-memory traces with read-consistency constraints, replayed on real threads; benign races amplified deterministically (solver-made schedule on steady-state traces repeated on one object)', '4 C18, 7.3, 7.8'),
  'C19': ('E1', 'CrossHair over symbolic text: bytes insert == text insert per path/form/encoding; ustr laws; pools for cp1252/utf-16', '4 C19'),
  'C20': ('E1', 'CrossHair-enumerated payload lengths (chunk layer with zlib stubbed) and click histories vs. set-of-expanded-paths model', '4 C20, 7.3'),
 }
